@@ -28,6 +28,22 @@ func runC02(c *Ctx) {
 	c02Ring(c)
 	// the two representations of every emitted match set (kernel bytes / userspace struct) agree
 	c01Dual(c)
+	// the userspace scan step equals the same first-match reference the kernel step is compared with
+	c02GoScan(c)
+}
+
+func c02GoScan(c *Ctx) {
+	or, ok1 := constInt(c, "SCAN", "common/consts", "OutboundLogicalOr")
+	and, ok2 := constInt(c, "SCAN", "common/consts", "OutboundLogicalAnd")
+	mask, ok3 := constInt(c, "SCAN", "common/consts", "OutboundLogicalMask")
+	mr, ok4 := constInt(c, "SCAN", "common/consts", "OutboundMustRules")
+	cpr, ok5 := constInt(c, "SCAN", "common/consts", "OutboundControlPlaneRouting")
+	if !(ok1 && ok2 && ok3 && ok4 && ok5) {
+		return
+	}
+	cells := checkScan(c, "SCAN", scanSpec{Rel: "control", Fn: "RoutingMatcher.Match", RangeOver: "matches", NotField: "match.not", OutField: "match.outbound", MustField: "match.must",
+		Or: or, And: and, Mask: mask, MustRules: mr, UserKinds: []int64{0, 1, 2, cpr}, HasMustVar: true})
+	c.R.Floor("SCAN/cells", cells, 224)
 }
 
 var reSpace = regexp.MustCompile(`\s+`)
